@@ -4,38 +4,76 @@ open Zc
 
 def b01 (b : Bool) : String := if b then "1" else "0"
 
-/-- `c20r <recA> <recB>` → `eq hasheq kindeq speceq suppressedByAnswer`; the class field of each record is the **raw constructor
-argument** (flush bit included), `normCtor` is `DNSEntry._set_class` -/
+/-! `str.lower` is a parameter of the model.  The driver does not implement Unicode case mapping: every C20 line starts
+with a table `<n> (<hex s> <hex lower s>)*n` giving the lower-cased form of the strings on the line whose lower-casing is
+not plain ASCII lowering; the harness computes the table from the constructor arguments with its own folding table (not
+with the implementation's `str.lower()`).  A string that is not listed is lowered by `asciiLower`. -/
+
+def lowerTable : Tok (List (String × String)) :=
+  Tok.list (do let s ← Tok.str; let l ← Tok.str; pure (s, l))
+
+def lowerOf (t : List (String × String)) (s : String) : String :=
+  match t.lookup s with
+  | some l => l
+  | none => asciiLower s
+
+/-- `c20r <tbl> <recA> <recB>` → `eq hasheq kindeq speceq suppressedByAnswer`; the class field of each record is the **raw
+constructor argument** (flush bit included), `normCtor` is `DNSEntry._set_class` -/
 def c20r (toks : List String) : String :=
-  match (do let a ← Rec.parse; let b ← Rec.parse; Tok.done; pure (a, b) : Tok (Rec × Rec)).run toks with
-  | some ((a0, b0), _) =>
+  match (do let t ← lowerTable; let a ← Rec.parse; let b ← Rec.parse; Tok.done; pure (t, a, b) : Tok (List (String × String) × Rec × Rec)).run toks with
+  | some ((t, a0, b0), _) =>
+    let lower := lowerOf t
     let a := a0.normCtor
     let b := b0.normCtor
-    let eq := a.beq asciiLower b
-    let heq := decide (a.hashKey asciiLower = b.hashKey asciiLower)
+    let eq := a.beq lower b
+    let heq := decide (a.hashKey lower = b.hashKey lower)
     let keq := decide (a.rdata.kind = b.rdata.kind)
-    let seq := decide (a.specIdent asciiLower = b.specIdent asciiLower)
-    s!"{b01 eq} {b01 heq} {b01 keq} {b01 seq} {b01 (a.suppressedByAnswer asciiLower b)}"
+    let seq := decide (a.specIdent lower = b.specIdent lower)
+    s!"{b01 eq} {b01 heq} {b01 keq} {b01 seq} {b01 (a.suppressedByAnswer lower b)}"
   | none => "bad-op"
 
-/-- `c20q <qA> <qB>` → `eq hasheq speceq` -/
+/-- `c20q <tbl> <qA> <qB>` → `eq hasheq speceq` -/
 def c20q (toks : List String) : String :=
-  match (do let a ← Question.parse; let b ← Question.parse; Tok.done; pure (a, b) : Tok (Question × Question)).run toks with
-  | some ((a0, b0), _) =>
+  match (do let t ← lowerTable; let a ← Question.parse; let b ← Question.parse; Tok.done; pure (t, a, b) : Tok (List (String × String) × Question × Question)).run toks with
+  | some ((t, a0, b0), _) =>
+    let lower := lowerOf t
     let a := a0.normCtor
     let b := b0.normCtor
-    s!"{b01 (a.beq asciiLower b)} {b01 (decide (a.hashKey asciiLower = b.hashKey asciiLower))} {b01 (decide (a.specIdent asciiLower = b.specIdent asciiLower))}"
+    s!"{b01 (a.beq lower b)} {b01 (decide (a.hashKey lower = b.hashKey lower))} {b01 (decide (a.specIdent lower = b.specIdent lower))}"
   | none => "bad-op"
 
-/-- `c20s <k> <rec>*k <probe>` → `DNSRRSet(recs).suppresses(probe)` (raw classes as in `c20r`) -/
+/-- `<tbl> <k> <rec>*k <probe>` -/
+def listProbe : Tok (List (String × String) × List Rec × Rec) := do
+  let t ← lowerTable
+  let k ← Tok.nat
+  let rs ← Tok.many Rec.parse k
+  let r ← Rec.parse
+  Tok.done
+  pure (t, rs, r)
+
+/-- `c20s <tbl> <k> <rec>*k <probe>` → `DNSRRSet(recs).suppresses(probe)` (raw classes as in `c20r`) -/
 def c20s (toks : List String) : String :=
+  match listProbe.run toks with
+  | some ((t, rs, r), _) => b01 (rrsetSuppresses (lowerOf t) (rs.map Rec.normCtor) r.normCtor)
+  | none => "bad-op"
+
+/-- `c20m <tbl> <k> <rec>*k <probe>` → `probe.suppressed_by(<message with these answers>)` -/
+def c20m (toks : List String) : String :=
+  match listProbe.run toks with
+  | some ((t, rs, r), _) => b01 (r.normCtor.suppressedBy (lowerOf t) (rs.map Rec.normCtor))
+  | none => "bad-op"
+
+/-- `c20d <tbl> <k> <answer>*k <n> <additional>*n` → number of additionals sent after duplicate removal -/
+def c20d (toks : List String) : String :=
   match (do
+      let t ← lowerTable
       let k ← Tok.nat
-      let rs ← Tok.many Rec.parse k
-      let r ← Rec.parse
+      let ans ← Tok.many Rec.parse k
+      let n ← Tok.nat
+      let adds ← Tok.many Rec.parse n
       Tok.done
-      pure (rs, r) : Tok (List Rec × Rec)).run toks with
-  | some ((rs, r), _) => b01 (rrsetSuppresses asciiLower (rs.map Rec.normCtor) r.normCtor)
+      pure (t, ans, adds) : Tok (List (String × String) × List Rec × List Rec)).run toks with
+  | some ((t, ans, adds), _) => toString (replyAdditionals (lowerOf t) (ans.map Rec.normCtor) (adds.map Rec.normCtor)).length
   | none => "bad-op"
 
 namespace C20
@@ -44,6 +82,8 @@ def dispatch (cmd : String) (rest : List String) : Option String :=
   | "c20r" => some (c20r rest)
   | "c20q" => some (c20q rest)
   | "c20s" => some (c20s rest)
+  | "c20m" => some (c20m rest)
+  | "c20d" => some (c20d rest)
   | _ => none
 end C20
 
